@@ -171,11 +171,25 @@ def d2_data_owners(ctx, committer, appenders):
                                   'data file longer than the rows completely written')
                 continue
             if e.kind == 'RESIZE' and f.qualname == 'truncate_array':
-                guards = [p for p, fld in enclosing(f.node, e.node) if isinstance(p, ast.If) and fld == 'body'
-                          and any(isinstance(c, ast.Compare) and len(c.ops) == 2 for c in ast.walk(p.test))]
-                ctx.decide(bool(guards), 'R-OWN', 'D2', f, e.node, construct,
-                           inst + ' (under the two-sided shrink guard)',
-                           detail='os.truncate is not confined to the `0 <= newlen < len(a)` branch: it could grow the file')
+                # path-condition evaluation: the resize is unreachable whenever newlen >= len (it can only shrink)
+                from . import _trunc
+                nls = _trunc.find_newlen(f, f.params[1]) if len(f.params) > 1 else []
+                grows, unknown = [], not nls
+                if nls:
+                    for nl, L, runs, normal, raised in _trunc.shrink_rows(f, e.node, nls[0][0], f.params[0], f.params[1]):
+                        if not (0 <= nl < L):
+                            if runs is None:
+                                unknown = True
+                            elif runs:
+                                grows.append(f'newlen={nl}, len={L}')
+                if unknown and not grows:
+                    ctx.assume('R-OWN', 'D2', f, e.node, construct, inst + ' (only when it shrinks the file)',
+                               detail='the tests deciding the resize are not pure comparisons of the new length and len')
+                else:
+                    ctx.decide(not grows, 'R-OWN', 'D2', f, e.node, construct,
+                               inst + ' (reached only when 0 <= newlen < len: it can only shrink the file)',
+                               detail='os.truncate is reachable with a new length that is not shorter than the array: it could grow the file ('
+                                      + '; '.join(grows[:2]) + ')')
                 continue
             ctx.ok('R-OWN', 'D2', f, e.node, construct, inst + f' — owner: {owners[f.qualname]}')
     ctx.floor('C17 data-file touch sites', n, 5)
